@@ -51,6 +51,7 @@ func drawFoCfg(c *Case) foCfg {
 	cfg.logger = []int{2, 0, 1}[c.Pick("logger", 3)]
 	cfg.stats = c.Weighted("stats", 1, 1) == 1
 	cfg.observeMut = c.Weighted("ObserveMutability", 3, 1) == 1
+	cfg.boxVals = cfg.variant != 2 && c.Weighted("boxed-values", 3, 1) == 1
 
 	return cfg
 }
